@@ -69,6 +69,7 @@ def reservation_vs_render(h1, h2, as_colheader, needs_header, fn, src, pf, ps, s
 
 HDR_FONT = HDR + r'''
 import rtflite as rtf
+from vf.hlib import pick
 FONTS = [1, 4, 9]
 SIZES = [9, 12, 18]
 '''
@@ -173,36 +174,35 @@ def build(tier, seed):
             bounds="%d one-line rows, TWO nested page_by levels with symbolic one-character keys, nrow/reserved unbounded, new_page and "
                    "pageby_row symbolic" % n,
             what="with nested page_by every level's heading row (at the top of a page and at in-page boundaries) is inside the budget"))
-    # O4: the line estimate uses each cell's own font and size
+    # O4: the line estimate uses each cell's own font and size (outcome based: the stub's width grows with the size it is
+    # asked for, so a wrong font/size - or a memo that ignores them - gives a wrong line count)
     obs.append(Ob(
-        oid="O4.font_of_estimate", sig="f0: int, f1: int, z0: int, z1: int, perrow: bool",
+        oid="O4.font_of_estimate", sig="f0: int, f1: int, z0: int, z1: int, perrow: bool, same: bool",
         pre=["0 <= f0 <= 2 and 0 <= f1 <= 2 and 0 <= z0 <= 2 and 0 <= z1 <= 2"],
         header=HDR_FONT, timeout=T,
         body=r'''
-    fonts = [FONTS[f0], FONTS[f1]]
-    sizes = [SIZES[z0], SIZES[z1]]
+    fonts = [pick(FONTS, f0), pick(FONTS, f1)]
+    sizes = [pick(SIZES, z0), pick(SIZES, z1)]
     if perrow:
         attrs = NS(text_font=[[fonts[0]], [fonts[1]]], text_font_size=[[sizes[0]], [sizes[1]]], cell_height=[[0.15]])
     else:
         attrs = NS(text_font=[[fonts[0]]], text_font_size=[[sizes[0]]], cell_height=[[0.15]])
         fonts[1], sizes[1] = fonts[0], sizes[0]
-    calls = []
-    saved = (core.pl, core.get_string_width)
-    def gsw(text, font="Times New Roman", font_size=12, unit="in", dpi=72.0):
-        calls.append((text, font, font_size))
-        return 0.5
-    core.pl = PLStub
-    core.get_string_width = gsw
-    try:
-        PBC.calculate_row_metadata(calc_ns(10), FakeFrame({"v": ["r0", "r1"]}), [1.0], table_attrs=attrs)
-    finally:
-        core.pl, core.get_string_width = saved
-    seen = {t: (f, s) for t, f, s in calls}
-    return seen.get("r0") == (fonts[0], sizes[0]) and seen.get("r1") == (fonts[1], sizes[1])
+    texts = ["r0", "r0" if same else "r1"]
+    def width(text, font, size):
+        # 0.1 in per point of size, +0.05 for the sans and +0.02 for the mono font: lines = int(width) + 1 in a 1-inch column
+        return 0.1 * size + {1: 0.0, 4: 0.05, 9: 0.02}.get(font, 0.0)
+    rows = metadata({"v": texts}, [1.0], None, None, None, 10, 0, False, width, table_attrs=attrs)
+    ok = len(rows) == 2
+    for i in range(2):
+        ok = ok and rows[i]["data_rows"] == int(width(texts[i], fonts[i], sizes[i]) / 1.0) + 1
+    return ok
 ''',
-        funcs=F_META, stubs=["get_string_width -> recording stub", "data frame -> FakeFrame", "table attrs -> namespace"],
-        bounds="2 rows x 1 column; fonts in {1,4,9}, sizes in {9,12,18}; scalar or per-row attribute shape",
-        what="get_string_width is asked for cell (r,c) with the body's text_font/text_font_size at (r,c)"))
+        funcs=F_META, stubs=["get_string_width -> width that grows with the font size it is asked for", "data frame -> FakeFrame",
+                             "table attrs -> namespace"],
+        bounds="2 rows x 1 column with equal or different texts; fonts in {1,4,9}, sizes in {9,12,18}; scalar or per-row attribute shape",
+        what="each row is counted with the lines its cell needs at THAT row's own text_font / text_font_size (also when the same text "
+             "occurs in another row with another font)"))
     obs.append(glue_ob("O5.section_glue", T))
     meta = {
         "explanation": "The budget is decided on the real kernels: _assign_pages with unbounded symbolic heights/nrow/reserved rows "
